@@ -33,7 +33,7 @@ Section ParallelFacts.
   Variable T : Type.
   Variable ltb : T -> T -> bool.
   Variable zero : T.
-  Variable round7 : T -> T.
+  Variable roundp : nat -> T -> T.
   Variable smul : bool -> T -> T.
 
   Notation ind := (ind T).
@@ -42,12 +42,12 @@ Section ParallelFacts.
   Notation state := (state T).
   Notation pstate := (pstate T).
   Notation effect := (effect T).
-  Notation exec := (exec ltb zero round7 smul).
-  Notation run := (run ltb zero round7 smul).
-  Notation effect_of := (effect_of ltb zero round7 smul).
-  Notation job_evaluate := (job_evaluate ltb zero round7 smul).
-  Notation evaluate_serial := (evaluate_serial ltb zero round7 smul).
-  Notation attempts := (attempts ltb zero round7 smul).
+  Notation exec := (exec ltb zero roundp smul).
+  Notation run := (run ltb zero roundp smul).
+  Notation effect_of := (effect_of ltb zero roundp smul).
+  Notation job_evaluate := (job_evaluate ltb zero roundp smul).
+  Notation evaluate_serial := (evaluate_serial ltb zero roundp smul).
+  Notation attempts := (attempts ltb zero roundp smul).
 
   (* ------------------------------------------------------------------ the observable abstraction *)
   (* individuals by id: equal; problem.failed: multiset; store: per-id sequence of snapshots (hence the
@@ -321,12 +321,12 @@ Section ParallelFacts.
 
   Local Ltac eff := unfold Parallel.effect_of, Parallel.apply_effect, mkps, mkst;
     cbn [st_kind st_id st_att mkstep f_ind f_call f_failed f_store f_pend p_st p_pend s_heap s_pop s_failed s_store s_calls
-         Parallel.opt_app option_map ivec icosts isigned ifeas istate no_effect]; rewrite ?upd_upd.
+         Parallel.opt_app option_map ivec icosts isigned ifeas istate iprec no_effect]; rewrite ?upd_upd.
 
   Lemma exec_start e id att h pop fl sto cl pd i : id < length h ->
     exec e (mkps (mkst (upd h id i) pop fl sto cl) pd) (mkstep id att KStart) =
     mkps (mkst (upd h id {| ivec := ivec i; icosts := icosts i; isigned := isigned i; istate := InProgress;
-                            ifeas := feasible_of ltb zero (ifeas i) (e_cons e (ivec i)) |}) pop fl sto cl) pd.
+                            ifeas := feasible_of ltb zero (ifeas i) (e_cons e (ivec i)); iprec := iprec i |}) pop fl sto cl) pd.
   Proof. intros Lt. rewrite (exec_own e id att KStart h pop fl sto cl pd i Lt). eff. reflexivity. Qed.
 
   Lemma exec_obj e id att h pop fl sto cl pd i : id < length h ->
@@ -339,8 +339,8 @@ Section ParallelFacts.
   Lemma exec_write e id att h pop fl sto cl pd i costs v : id < length h -> pd id = Some (Ok costs, v) ->
     exec e (mkps (mkst (upd h id i) pop fl sto cl) pd) (mkstep id att KWrite) =
     mkps (mkst (upd h id {| ivec := ivec i; icosts := costs;
-                            isigned := Some (signed_costs round7 smul (e_signs e) costs (ifeas i));
-                            istate := Evaluated; ifeas := ifeas i |}) pop fl sto cl) pd.
+                            isigned := Some (signed_costs roundp smul (iprec i) (e_signs e) costs (ifeas i));
+                            istate := Evaluated; ifeas := ifeas i; iprec := iprec i |}) pop fl sto cl) pd.
   Proof. intros Lt P. rewrite (exec_own e id att KWrite h pop fl sto cl pd i Lt). eff. rewrite P. eff. reflexivity. Qed.
 
   Lemma exec_sync e id att h pop fl sto cl pd i : id < length h ->
@@ -350,13 +350,15 @@ Section ParallelFacts.
 
   Lemma exec_fail e id att h pop fl sto cl pd i v : id < length h -> pd id = Some (Transient, v) ->
     exec e (mkps (mkst (upd h id i) pop fl sto cl) pd) (mkstep id att KFail) =
-    mkps (mkst (upd h id {| ivec := ivec i; icosts := icosts i; isigned := isigned i; istate := istate i; ifeas := false |})
+    mkps (mkst (upd h id {| ivec := ivec i; icosts := icosts i; isigned := isigned i; istate := istate i; ifeas := false;
+                            iprec := iprec i |})
                pop (fl ++ [mk_failed (ivec i)]) sto cl) pd.
   Proof. intros Lt P. rewrite (exec_own e id att KFail h pop fl sto cl pd i Lt). eff. rewrite P. eff. reflexivity. Qed.
 
   Lemma exec_reroll e id att h pop fl sto cl pd i v : id < length h -> pd id = Some (Transient, v) ->
     exec e (mkps (mkst (upd h id i) pop fl sto cl) pd) (mkstep id att KReroll) =
-    mkps (mkst (upd h id {| ivec := v; icosts := icosts i; isigned := isigned i; istate := Empty; ifeas := ifeas i |})
+    mkps (mkst (upd h id {| ivec := v; icosts := icosts i; isigned := isigned i; istate := Empty; ifeas := ifeas i;
+                            iprec := iprec i |})
                pop fl sto cl) pd.
   Proof. intros Lt P. rewrite (exec_own e id att KReroll h pop fl sto cl pd i Lt). eff. rewrite P. eff. reflexivity. Qed.
 
@@ -387,7 +389,7 @@ Section ParallelFacts.
         rewrite (exec_sync e id att h pop fl sto (cl ++ [c]) pd' _ Lt). reflexivity.
       + rewrite !run_cons, (exec_fail e id att h pop fl sto (cl ++ [c]) pd' _ _ Lt PD).
         rewrite (exec_reroll e id att h pop (fl ++ [mk_failed (ivec i)]) sto (cl ++ [c]) pd' _ _ Lt PD).
-        cbn [ivec icosts isigned ifeas].
+        cbn [ivec icosts isigned ifeas iprec].
         apply (IH (S att) _ (mkst h pop (fl ++ [mk_failed (ivec i)]) sto (cl ++ [c]))); [exact Lt|reflexivity].
       + reflexivity.
   Qed.
@@ -428,7 +430,7 @@ Section ParallelFacts.
           pose proof (job_bridge e id (p_st ps) i ps L H S eq_refl) as B. rewrite J in B. cbn [fst] in B.
           apply (IH heap0 st1 _ st' ND' B); [|exact E].
           apply Same'. intros k D.
-          destruct (job_frame T ltb zero round7 smul e (p_st ps) id st1 Done J) as (_ & _ & _ & _ & _ & _ & Fr & _).
+          destruct (job_frame T ltb zero roundp smul e (p_st ps) id st1 Done J) as (_ & _ & _ & _ & _ & _ & Fr & _).
           apply Fr. exact D.
         * apply (IH heap0 (p_st ps) ps st' ND' eq_refl); [|exact E]. apply Same'. auto.
         * apply (IH heap0 (p_st ps) ps st' ND' eq_refl); [|exact E]. apply Same'. auto.
@@ -478,7 +480,7 @@ Section ParallelFacts.
   Proof.
     intros L batch st st' tr ND C0 E M id i H.
     destruct (parallel_equals_evaluate_serial e L batch st st' tr ND E M) as (_ & _ & _ & _ & _ & HC & _).
-    destruct (evaluate_once T ltb zero round7 smul e st batch st' E) as (cs & C & Q).
+    destruct (evaluate_once T ltb zero roundp smul e st batch st' E) as (cs & C & Q).
     rewrite C0 in C. cbn [app] in C.
     destruct (Q id i H) as (i' & _ & Q1 & Q2). split.
     - intros Em IN. destruct (Q1 Em IN) as (c & costs & OK & _).
@@ -507,16 +509,16 @@ Section ParallelFacts.
     intros J. destruct (nth_error (s_heap st) id) as [i|] eqn:H.
     - destruct (dstate_eqb (istate i) Evaluated) eqn:S.
       + assert (Ev : istate i = Evaluated) by (destruct (istate i); try discriminate; reflexivity).
-        rewrite (job_skip T ltb zero round7 smul e st id i H Ev) in J. inversion J; subst.
+        rewrite (job_skip T ltb zero roundp smul e st id i H Ev) in J. inversion J; subst.
         exists []. rewrite app_nil_r. split; [reflexivity|constructor].
       + assert (NE : istate i <> Evaluated) by (intros X; rewrite X in S; discriminate).
-        destruct (job_spec T ltb zero round7 smul e st id i st' r H NE J) as (cs & i' & _ & _ & _ & _ & Post).
+        destruct (job_spec T ltb zero roundp smul e st id i st' r H NE J) as (cs & i' & _ & _ & _ & _ & Post).
         unfold attempts_post in Post. destruct r as [| |k].
         * destruct Post as (pre & c & costs & _ & _ & _ & _ & _ & _ & S').
           exists [(id, i')]. split; [exact S'|]. constructor; [reflexivity|constructor].
         * destruct Post as (_ & _ & _ & S' & _). exists []. rewrite app_nil_r. split; [exact S'|constructor].
         * destruct Post as (pre & c & _ & _ & _ & _ & _ & S' & _). exists []. rewrite app_nil_r. split; [exact S'|constructor].
-    - rewrite (job_invalid T ltb zero round7 smul e st id H) in J. inversion J; subst.
+    - rewrite (job_invalid T ltb zero roundp smul e st id H) in J. inversion J; subst.
       exists []. rewrite app_nil_r. split; [reflexivity|constructor].
   Qed.
 
@@ -552,11 +554,11 @@ Section ParallelFacts.
     - rewrite H, Em in E. destruct (job_evaluate e st id) as [st1 r1] eqn:J.
       assert (r1 = Done) as -> by (destruct r1; [reflexivity| |]; inversion E).
       assert (NE : istate i <> Evaluated) by congruence.
-      destruct (job_spec T ltb zero round7 smul e st id i st1 Done H NE J) as (cs & i' & _ & Hh & _ & _ & Post).
+      destruct (job_spec T ltb zero roundp smul e st id i st1 Done H NE J) as (cs & i' & _ & Hh & _ & _ & Post).
       unfold attempts_post in Post. destruct Post as (pre & c & costs & _ & _ & _ & _ & _ & I' & S').
       assert (Lt : id < length (s_heap st)) by (apply nth_error_Some; congruence).
       exists i'. split; [|split].
-      + rewrite (serial_untouched T ltb zero round7 smul e rest st1 st' Done id E NI), Hh.
+      + rewrite (serial_untouched T ltb zero roundp smul e rest st1 st' Done id E NI), Hh.
         apply nth_error_upd_same. exact Lt.
       + destruct (serial_store_frame e rest st1 st' Done E) as (l & S & F). rewrite S, S'.
         rewrite row_of_other; [apply row_of_last|].
@@ -571,7 +573,7 @@ Section ParallelFacts.
       destruct (job_evaluate e st id0) as [st1 r1] eqn:J.
       assert (r1 = Done) as -> by (destruct r1; [reflexivity| |]; inversion E).
       apply (Next st1); [|exact E].
-      destruct (job_frame T ltb zero round7 smul e st id0 st1 Done J) as (_ & _ & _ & _ & _ & _ & Fr & _).
+      destruct (job_frame T ltb zero roundp smul e st id0 st1 Done J) as (_ & _ & _ & _ & _ & _ & Fr & _).
       rewrite Fr; [exact H|congruence].
   Qed.
 
@@ -600,7 +602,7 @@ Section ParallelFacts.
   Proof.
     intros L batch st st' tr ND C0 E M id i IN H Em.
     destruct (parallel_equals_evaluate_serial e L batch st st' tr ND E M) as (HH & _ & _ & _ & _ & HC & _).
-    destruct (evaluate_once T ltb zero round7 smul e st batch st' E) as (cs & C & Q).
+    destruct (evaluate_once T ltb zero roundp smul e st batch st' E) as (cs & C & Q).
     rewrite C0 in C. cbn [app] in C.
     destruct (Q id i H) as (i' & A & Q1 & _). destruct (Q1 Em IN) as (c & costs & OK & B1 & B2 & B3 & B4).
     exists i', c, costs. rewrite HH, HC, C. repeat split; auto.
